@@ -459,6 +459,18 @@ theorem C19_evt_circuit_matrix_auxiliary (pc : Pcps ℝ) (encAux : List ℕ) (θ
 
 /-! ### the emitted gates' actions are those of the generated closed forms -/
 
+/-- the same with the block encoding as `as_circuit_matrix` places it: matrices `u`, `ui` on the block encoding's own `k` wires
+(its auxiliary = the processing gate's encoding qubits, then the encoded system), embedded by `iw` (Core B, C04) on wires that
+do not include the processing gate's auxiliary wire `a` — such a gate never touches wire `a` -/
+theorem C19_evt_circuit_matrix_auxiliary_embedded (pc : Pcps ℝ) (encAux : List ℕ) (θs : List ℝ) (items : List (EvtItem ℝ))
+    (hm : pc.method = .auxiliary) (h : evtCircuit pc encAux (some θs) = .ok items)
+    (a : ℕ) (ha : pc.aux.head? = some a) (hdisj : a ∉ pc.enc) (n : ℕ) (han : a < n)
+    {k : ℕ} (iw : Fin k ↪ Fin n) (hiw : ∀ j, (iw j).1 ≠ a) (u ui : Matrix (Fin k → Bool) (Fin k → Bool) ℂ) :
+    circuitDen (evtDen n (embed iw u) (embed iw ui)) items * wireZero n a
+      = evtSpec (fun θ : ℝ => exp ((I * (θ : ℂ)) • reflOn (EncZero n pc.enc))) (embed iw u) (embed iw ui) θs * wireZero n a :=
+  (C19_evt_circuit_matrix_auxiliary pc encAux θs items hm h a ha hdisj n han (embed iw u) (embed iw ui)
+    (embed_commute_wireZero iw u a hiw) (embed_commute_wireZero iw ui a hiw)).1
+
 /-- `Rz(a)`, `X` and the phase factor gate (definitions regenerated from `gates.py`): `Rz(a)` multiplies `|b⟩` by
 `e^{i·rzPhase a b}` (`rzPhase` is what `GateDesc.act` uses), `X` flips the bit, the phase factor gate is the scalar `e^{iφ}` -/
 theorem C19_leaf_actions_generated (a φ : ℝ) (k : ℕ) :
